@@ -41,7 +41,7 @@ ASSUMPTIONS = ["an accepted datagram whose OSCORE option was re-encoded without 
                "bit flips in the CoAP header, token and outer options are not faults for this property (they are "
                "not protected by OSCORE)", "Observe is excluded from the round-trip comparison (special-cased by "
                "RFC 8613 4.1.3.5)", "a request that protect() refuses (Proxy-Uri) is an anomaly, not a verdict"]
-EXPECTED_PROBES = ["roundtrip_request", "roundtrip_response", "piv_len_1", "piv_len_2", "piv_len_3", "piv_len_4",
+EXPECTED_PROBES = ["outer_observe_rewritten", "roundtrip_request", "roundtrip_response", "piv_len_1", "piv_len_2", "piv_len_3", "piv_len_4",
                    "piv_len_5", "fault_flip_opt", "fault_flip_ct", "fault_piv", "fault_kid", "fault_ctx", "fault_flags",
                    "fault_trunc", "fault_drop_opt", "fault_swap_ct", "fault_swap_opt", "foreign_keys", "cross_pairing",
                    "cross_pairing_other_context", "response_own_piv", "response_replayed", "id_context_present",
@@ -221,6 +221,9 @@ def gen(r, tier):
         })
         if ops[-1]["own_piv"] and r.chance(0.3):
             ops[-1]["big_between"] = True
+        if r.chance(0.3):
+            # somebody on the path rewrites the (unprotected) outer Observe option of the request
+            ops[-1]["outer_obs"] = r.choice(["set0", "set0", "drop", "set1"])
     if r.chance(0.3):
         # both ends use their context in both roles: some exchanges run the other way round (B asks, A answers), and
         # the two senders' sequence numbers may well coincide (they are counted per sender)
@@ -785,6 +788,32 @@ def execute(sim, scn):
                               dict(ident(i, "request"), foreign=kind, error=str(e)[:120]))
             else:
                 sim.violation("C11/foreign-keys-accepted", dict(ident(i, "request"), foreign=kind))
+        if op.get("outer_obs"):
+            # Observe travels twice, encrypted and in the clear; the outer copy is anybody's to change on the way, and
+            # changing it may take the sender's Observe away (RFC 8613 4.1.3.5.1) -- it never puts one there the
+            # sender did not send, and it touches nothing else
+            o_opts = [(n, v) for n, v in ref["options"] if n != rc.OBSERVE]
+            if op["outer_obs"] != "drop":
+                o_opts.append((rc.OBSERVE, b"" if op["outer_obs"] == "set0" else b"\x01"))
+            o_opts.sort(key=lambda o: o[0])
+            sim.probe("outer_observe_rewritten")
+            state["faulted"] += 1
+            R["Qs"].recipient_replay_window.initialize_empty()
+            try:
+                got_o, _ = R["Qs"].unprotect(env.from_wire(rc.encode(dict(ref, options=o_opts))))
+            except osc.ProtectionInvalid:
+                sim.probe("outer_observe_rewrite_refused")
+            except Exception as e:
+                sim.violation("C11/unprotect-raises-%s" % type(e).__name__,
+                              dict(ident(i, "request"), outer_observe=op["outer_obs"], error=str(e)[:120]))
+            else:
+                sent_obs = [bytes.fromhex(v) for n, v in spec["opts"] if n == rc.OBSERVE]
+                got_obs = [v for n, v in env.options_of(got_o) if n == rc.OBSERVE]
+                if got_obs and got_obs != sent_obs:
+                    sim.violation("C11/observe-made-up-from-outer-option",
+                                  dict(ident(i, "request"), outer_observe=op["outer_obs"], sent=[v.hex() for v in sent_obs],
+                                       got=[v.hex() for v in got_obs]))
+                check_roundtrip(i, "request", spec, got_o)
         # --- intact delivery
         try:
             got, rid_b = R["Q"].unprotect(env.from_wire(data))
